@@ -364,7 +364,7 @@ pub(super) async fn inscription(
       .flatten()
       .unwrap();
 
-    let output = if satpoint.outpoint == unbound_outpoint() {
+    let output = if Index::is_special_outpoint(satpoint.outpoint) {
       None
     } else {
       Some(
